@@ -84,6 +84,9 @@ func (s *spyLogic) err() error {
 	if s.kind == "client" {
 		return bittorrent.ClientError(injectedClientMsg)
 	}
+	if s.kind == "wrapped" { // a client error wrapped with internal context: the client sees the client part only
+		return fmt.Errorf("backend 10.0.0.5:6379 shard 3 %s: %w", s.token, fmt.Errorf("hook: %w", bittorrent.ClientError(injectedClientMsg)))
+	}
 	return errors.New("dial tcp 10.0.0.5:6379: " + s.token)
 }
 
@@ -366,7 +369,7 @@ func udpHandle(c *Ctx, uc udpCase) {
 				switch {
 				case strings.Contains(string(msg), token) || strings.Contains(string(msg), "10.0.0.5"):
 					cls = "LEAK"
-				case called && kind == "client" && string(msg) == injectedClientMsg:
+				case called && (kind == "client" || kind == "wrapped") && string(msg) == injectedClientMsg:
 					cls = "client"
 				case called && kind == "internal":
 					cls = "internal"
